@@ -146,6 +146,8 @@ class Interp:
                 name = u(exc.func) if isinstance(exc, ast.Call) else u(exc)
                 raise Raises(name, u(e)[:80])
             if is_call_to(e, "__endtry__"):
+                for forced in e.args[1:]:
+                    self.ev(forced)  # evaluated inside the try: may raise into the handlers
                 raise _EndTry(e.args[0])
             if is_call_to(e, "__try__"):
                 return self._try(e)
